@@ -16,9 +16,10 @@ SPEC = {
         "shared by the three de-duplication loops is harmless when the three kinds use different non-empty names "
         "(C28_shared_last_harmless_partial; an example shows it drops a directory named like the greatest file otherwise); buildEnv output is "
         "sorted, duplicate free and independent of map iteration order (C28_env_sorted, C28_env_strict, C28_env_order_irrelevant); the action "
-        "digest depends on the input root only through its digest (C28_action_digest). Not proved in Lean: that permuting the *operations* on "
-        "the builder (dir() with its hasChild guard) yields permuted insertion lists - that step is covered by the correspondence and by the "
-        "exhaustive permutation oracle on the real code."
+        "digest depends on the input root only through its digest (C28_action_digest). The step from the callers' operations to the insertion lists is "
+        "proved too (Lemmas/DirBuilderOps.lean): dir() with its hasChild guard is analysed on the builder as a partial function, the builder after any "
+        "list of operations is characterised declaratively (C28_builder_contents), hence any permutation of a consistent list of operations gives the same "
+        "root digest and the same uploaded messages (C28_insertion_order_irrelevant). Not proved: that walk never runs out of fuel (the model uses depth+2)."
     ),
     "technique": "Lean proof (sort+adjacent-dedup = strictly sorted; sorted permutations of a consistent list coincide; induction over the tree walk) "
                  "+ go/ast facts of walk/dir/buildEnv/buildAction + differential run of the real dirBuilder through a verif hook over every permutation",
@@ -29,7 +30,7 @@ SPEC = {
         "correspondence harness/cmd/c28 vs Driver/C28.lean: every permutation of consistent sets of <= 5 (quick) / 6 (thorough) entries as separate cases, "
         "larger random sets (> 12 entries per directory, leaving sort.Slice's insertion-sort regime), inconsistent input (same name under several kinds, "
         "different contents, empty names, nil digests), environment maps",
-        "modelled, not verified: Model/DirBuilder.lean transcribes dir(), walk() and buildEnv; b.dirs as an association list; names as byte lists with Go's string order",
+        "modelled, not verified: Model/DirBuilder.lean transcribes dir(), the insertion idiom of uploadInputDir (Op), walk() and buildEnv; b.dirs as an association list; names as byte lists with Go's string order",
         "idealisation: the digest of a message is an arbitrary function H of the message (the driver uses an injective rendering); proto.Marshal/sha256 are not modelled",
         "not modelled: uploadInputDir's traversal of targets and the filesystem, addChildDirs, Tree(), remote execution itself",
     ],
